@@ -7,6 +7,7 @@
 use std::env;
 use std::process::exit;
 
+mod c15;
 mod c20;
 
 pub type Check = fn(&str) -> Option<String>;
@@ -18,7 +19,7 @@ pub struct Family {
 }
 
 fn families() -> Vec<Family> {
-    vec![c20::family()]
+    vec![c20::family(), c15::family()]
 }
 
 pub fn hex(b: &[u8]) -> String {
